@@ -104,7 +104,7 @@ Inductive Step : state -> Prop :=
     nth_error (chs s) c = Some ch -> q ch <> [] -> take ch i = Some (v, ch') -> Step (set_rc s i (recv r c v) c ch')
 | SRangeEnd : forall c ops' ch, unw r = false -> fops f = ORange c :: ops' ->
     nth_error (chs s) c = Some ch -> q ch = [] -> closed ch = true -> Step (set_r s i (adv ops'))
-| SSelect : forall cs k c ops' ch v ch', unw r = false -> fops f = OSelect cs :: ops' -> nth_error cs k = Some c ->
+| SSelect : forall cs k c ops' ch v ch', unw r = false -> fops f = OSelect cs :: ops' -> nth_error cs k = Some (Some c) ->
     nth_error (chs s) c = Some ch -> take ch i = Some (v, ch') -> Step (set_rc s i (recv (adv ops') c v) c ch')
 | SCloseClosed : forall c ops' ch, unw r = false -> fops f = OClose c :: ops' ->
     nth_error (chs s) c = Some ch -> closed ch = true -> Step (raise s i (adv ops'))
@@ -184,7 +184,7 @@ Proof.
         destruct (q ch) eqn:Q.
         -- destruct (closed ch) eqn:CL; inversion H; subst. eapply SRangeEnd; eauto.
         -- destruct (take ch i) as [[v ch']|] eqn:T; inversion H; subst. eapply SRangeTake; eauto. congruence.
-      * destruct (nth_error cs k) as [c|] eqn:N; try discriminate.
+      * destruct (nth_error cs k) as [[c|]|] eqn:N; try discriminate.
         destruct (nth_error (chs s) c) as [ch|] eqn:C; try discriminate.
         destruct (take ch i) as [[v ch']|] eqn:T; inversion H; subst. eapply SSelect; eauto.
       * destruct (nth_error (chs s) c) as [ch|] eqn:C; try discriminate.
